@@ -22,6 +22,7 @@ THEOREMS = [
     'Px.Forward.C02_first', 'Px.Forward.C02_later_partial', 'Px.Forward.C02_later_witness_noVia',
     'Px.Forward.C02_headers', 'Px.Forward.C02_no_credentials', 'Px.Forward.C02_chunked',
     'Px.Forward.C02_content_length', 'Px.Forward.C02_content_length_repeated', 'Px.Forward.C02_via_appended',
+    'Px.Forward.C02_forwarded_fields_wellformed',
     'Px.Forward.forward_wf', 'Px.Forward.parse_render', 'Px.Forward.semEq_impl_spec', 'Px.Forward.parse_pinv',
 ]
 RULE = ('connections of 1-3 requests generated from the specification-side Req (method, absolute-form target, '
@@ -281,6 +282,11 @@ def run_conn(case):
                 continue
             got = b''
             for seg in segments(req):
+                # the schedule respects get_events(): a handler that no longer reads its client
+                # (error response pending, teardown after flush) is not handed further segments
+                if not w.interest(h, cs)[0]:
+                    dead = True
+                    break
                 cs.script_recv(('data', seg))
                 if w.tick(h, [cs.fileno()], []) is not False:
                     dead = True
